@@ -402,6 +402,112 @@ fn c04<X: L>(c: &mut Ctx, n: usize) {
         let x = X::mk(n, &t);
         canon_all(c, &x, false, false, true);
     }
+    // already-canonical inputs at the sizes that use the run-time generated sequences
+    if n >= 7 {
+        let t = gen_table(&mut c.rng, n, Kind::Uniform);
+        let x = X::mk(n, &t);
+        if let Some((l, _)) = call(|| x.p_canon_()) {
+            canon_all(c, &l, true, false, false);
+        }
+        if let Some((l, _)) = call(|| x.n_canon_()) {
+            canon_all(c, &l, false, true, false);
+        }
+    }
+    // orbit sweeps: every member of the orbit of one random function goes through the canonization (all members must
+    // get the same representative; a group element that the walk fails to visit shows on the member that needs it).
+    // The members are built here, bit by bit, not with volute's own flip/swap.
+    if n >= 1 {
+        let base = gen_table(&mut c.rng, n, Kind::Uniform);
+        let id: Vec<usize> = (0..n).collect();
+        // N: all 2^(n+1) complementations
+        for mask in 0..(1usize << n) {
+            for out in [false, true] {
+                let x = X::mk(n, &transform_table(n, &base, &id, mask, out));
+                canon_all(c, &x, false, true, false);
+            }
+        }
+        // P: all permutations up to n = 5 (6 for the dynamic type), a sample above
+        let perms: Vec<Vec<usize>> = if n <= 5 || (n == 6 && X::TY == "D") {
+            all_perms(n)
+        } else {
+            (0..(if c.thorough { 200 } else if n == 7 { 24 } else { 10 })).map(|_| random_perm(&mut c.rng, n)).collect()
+        };
+        for perm in perms.iter() {
+            let x = X::mk(n, &transform_table(n, &base, perm, 0, false));
+            canon_all(c, &x, true, false, false);
+        }
+        // NPN: the whole orbit at n = 4, a sample at n = 5, 6
+        if n == 4 || ((n == 5 || n == 6) && X::TY == "D") {
+            let all = all_perms(n);
+            let members: Vec<(Vec<usize>, usize, bool)> = if n == 4 {
+                let mut v = Vec::new();
+                for perm in all.iter() {
+                    for mask in 0..(1usize << n) {
+                        for out in [false, true] {
+                            v.push((perm.clone(), mask, out));
+                        }
+                    }
+                }
+                v
+            } else {
+                (0..(if c.thorough { 120 } else { if n == 5 { 30 } else { 4 } }))
+                    .map(|_| (random_perm(&mut c.rng, n), c.rng.below(1 << n), c.rng.coin()))
+                    .collect()
+            };
+            for (perm, mask, out) in members {
+                let x = X::mk(n, &transform_table(n, &base, &perm, mask, out));
+                canon_all(c, &x, false, false, true);
+            }
+        }
+    }
+}
+
+/// g(y) = f(x) xor out, where x[perm[i]] = y[i] xor mask[i]  (the group action of the property text, computed bit by bit)
+fn transform_table(n: usize, f: &[u64], perm: &[usize], mask: usize, out: bool) -> Vec<u64> {
+    let mut g = vec![0u64; tsize(n)];
+    for y in 0..(1usize << n) {
+        let mut x = 0usize;
+        for i in 0..n {
+            if ((y >> i) & 1) ^ ((mask >> i) & 1) == 1 {
+                x |= 1 << perm[i];
+            }
+        }
+        let v = ((f[x >> 6] >> (x & 63)) & 1 == 1) != out;
+        if v {
+            g[y >> 6] |= 1 << (y & 63);
+        }
+    }
+    g
+}
+
+fn all_perms(n: usize) -> Vec<Vec<usize>> {
+    fn rec(cur: &mut Vec<usize>, used: &mut Vec<bool>, n: usize, out: &mut Vec<Vec<usize>>) {
+        if cur.len() == n {
+            out.push(cur.clone());
+            return;
+        }
+        for v in 0..n {
+            if !used[v] {
+                used[v] = true;
+                cur.push(v);
+                rec(cur, used, n, out);
+                cur.pop();
+                used[v] = false;
+            }
+        }
+    }
+    let mut out = Vec::new();
+    rec(&mut Vec::new(), &mut vec![false; n], n, &mut out);
+    out
+}
+
+fn random_perm(rng: &mut Rng, n: usize) -> Vec<usize> {
+    let mut p: Vec<usize> = (0..n).collect();
+    for i in (1..n).rev() {
+        let j = rng.below(i + 1);
+        p.swap(i, j);
+    }
+    p
 }
 
 #[cfg(volute_verif)]
@@ -1147,12 +1253,66 @@ fn c17_dyn_mismatch(c: &mut Ctx) {
         let r = call(|| a == b);
         c.emit("eq", "D", &[fl(&a), fl(&b)], r.map(fb));
     }
+    // every pair of different sizes up to 8, with the block contents related in the three possible ways
+    // (identical words, larger, smaller): the order must follow num_vars whatever the blocks say
+    for n1 in 0..=8usize {
+        for n2 in 0..=8usize {
+            if n1 == n2 {
+                continue;
+            }
+            let ta = gen_table(&mut c.rng, n1, Kind::Uniform);
+            let m = nvmask(n1.min(n2));
+            let len2 = tsize(n2);
+            let same: Vec<u64> = (0..len2).map(|k| ta.get(k).copied().unwrap_or(0) & m).collect();
+            let mut up = same.clone();
+            up[len2 - 1] = (up[len2 - 1] | 1) & nvmask(n2);
+            let mut down = same.clone();
+            down[len2 - 1] &= !1;
+            let a0: Vec<u64> = ta.iter().map(|w| w & m).collect();
+            for (wa, wb) in [(a0.clone(), same.clone()), (a0.clone(), up), (a0.iter().map(|w| w | 1).collect(), down), (ta.clone(), gen_table(&mut c.rng, n2, Kind::Uniform))] {
+                let a = Lut::mk(n1, &wa);
+                let b = Lut::mk(n2, &wb);
+                let r = call(|| a.cmp(&b));
+                c.emit("cmp", "D", &[fl(&a), fl(&b)], r.map(fcmp));
+                let r = call(|| a.partial_cmp(&b).unwrap());
+                c.emit("cmp.partial", "D", &[fl(&a), fl(&b)], r.map(fcmp));
+                let r = call(|| a == b);
+                c.emit("eq", "D", &[fl(&a), fl(&b)], r.map(fb));
+                let r = call(|| hash_of(&a) == hash_of(&b));
+                c.emit("hash_eq", "D", &[fl(&a), fl(&b)], r.map(fb));
+            }
+        }
+    }
 }
 
 // ---------------------------------------------------------------------------------------------- C02: histories
 fn c02<X: L>(c: &mut Ctx, n: usize) {
     let ty = X::TY;
     let programs = if c.thorough { 40 } else { 10 };
+    // the parser as a constructor: every string of the right width over the hex digits for n <= 2 (the widths are 1),
+    // random digit strings above - whatever it accepts must be well formed
+    {
+        let width = if n <= 2 { 1 } else { 1usize << (n - 2) };
+        let digits = b"0123456789abcdefABCDEF";
+        let mut strings: Vec<Vec<u8>> = Vec::new();
+        if n <= 2 {
+            for d in digits.iter() {
+                strings.push(vec![*d]);
+            }
+        } else {
+            for _ in 0..4 {
+                strings.push((0..width).map(|_| digits[c.rng.below(digits.len())]).collect());
+            }
+        }
+        for s in strings {
+            let st = String::from_utf8(s.clone()).unwrap();
+            let r = call(|| X::from_hex_(n, &st));
+            c.emit("from_hex", ty, &[n.to_string(), fbytes(&s)], r.map(|x| match x {
+                Ok(l) => format!("ok:{}", fl(&l)),
+                Err(_) => "err".to_string(),
+            }));
+        }
+    }
     for _ in 0..programs {
         let mut pool: Vec<X> = Vec::new();
         // start from constructors
@@ -1306,6 +1466,27 @@ fn c02<X: L>(c: &mut Ctx, n: usize) {
         }
         for _ in 0..3 {
             probes.push((pool[c.rng.below(pool.len())].clone(), pool[c.rng.below(pool.len())].clone()));
+        }
+        if ty == "D" {
+            // values of a different size holding the same words: equal blocks must not mean equal / Ordering::Equal
+            let x = pool[c.rng.below(pool.len())].clone();
+            for n2 in [n.wrapping_sub(1), n + 1] {
+                if n2 > 12 {
+                    continue;
+                }
+                let len2 = tsize(n2);
+                let m = nvmask(n.min(n2));
+                let xb = x.blocks_();
+                let wb: Vec<u64> = (0..len2).map(|k| xb.get(k).copied().unwrap_or(0) & m).collect();
+                let a = Lut::mk(n, &xb);
+                let b = Lut::mk(n2, &wb);
+                let r = call(|| a.cmp(&b));
+                c.emit("cmp", "D", &[fl(&a), fl(&b)], r.map(fcmp));
+                let r = call(|| a == b);
+                c.emit("eq", "D", &[fl(&a), fl(&b)], r.map(fb));
+                let r = call(|| hash_of(&a) == hash_of(&b));
+                c.emit("hash_eq", "D", &[fl(&a), fl(&b)], r.map(fb));
+            }
         }
         for (p, q) in probes {
             c.emit("eq", ty, &[fl(&p), fl(&q)], Some(fb(p == q)));
